@@ -527,11 +527,11 @@ func runC03(_ *testing.T, c c03Case) (out kit.Outcome) {
 			b := mkBin(*op.Part)
 			if op.Part.Reuse {
 				// re-attach an object that was removed earlier (its outstanding tokens still release on it)
-				for _, g := range gone {
+				for gi, g := range gone {
 					if g.part.Name == op.Part.Name && g.part.Obj == op.Part.Obj {
 						b = g
-						b.part.Frac = g.part.Frac
 						op.Part.Frac = g.part.Frac
+						gone = append(gone[:gi:gi], gone[gi+1:]...) // attached again: it can be handed in again only after another removal
 						break
 					}
 				}
